@@ -13,6 +13,7 @@
 From Coq Require Import List NArith Bool.
 From Conductor Require Import Lib.Str Model.Store Proofs.StoreSpec Proofs.StoreProofs Proofs.StoreInv
   Proofs.StoreSteps Proofs.StoreThms Refuted.CleanOld.
+From Conductor Require Import Gen.Generated.
 Import ListNotations.
 Open Scope N_scope.
 
@@ -62,6 +63,33 @@ Theorem C06_clean_refuted_old :
   In the_row (s_rows s) /\ lookup (row_key the_row) (s_dirs s) = None /\ ~ Inv s.
 Proof. exact Refuted.CleanOld.C06_clean_refuted_old. Qed.
 Print Assumptions C06_clean_refuted_old.
+
+(* Tie to the sources, re-checked on every run: the order of `cond clean` in the model -- the version index is unlinked FIRST,
+   then the version directories go one by one, then the rest -- is the order of cli/clean.py of the working tree as TRANSLATED
+   (gen_clean_removals = [unlink(index); rmtree(cond-out)], the command stopping with status 1 and nothing removed when the index
+   cannot be unlinked), and the command proceeds exactly when --force is given or `y` was typed (never at end of input). *)
+Definition clean_step_code (l : label) : list N :=
+  match l with LCleanIndex => [1] | LCleanDir _ => [2] | LCleanAll => [2] | _ => [] end.
+Fixpoint dedup_adjacent (l : list N) : list N :=
+  match l with
+  | a :: (b :: _) as t => if a =? b then dedup_adjacent t else a :: dedup_adjacent t
+  | _ => l
+  end.
+Theorem C06_clean_order_is_the_sources : forall s,
+  dedup_adjacent (flat_map clean_step_code (command_labels s KClean)) = gen_clean_removals /\
+  gen_clean_stops_when_the_index_cannot_be_removed = true /\
+  (forall force eof typed_y, gen_clean_proceeds force eof typed_y = force || (negb eof && typed_y)).
+Proof.
+  intro s. split; [|split; [reflexivity|intros [] [] []; reflexivity]].
+  unfold command_labels. cbn [app flat_map clean_step_code]. rewrite flat_map_app.
+  assert (E : forall l : fs, dedup_adjacent ([1] ++ flat_map clean_step_code (map (fun kd => LCleanDir (fst kd)) l) ++ [2]) = [1; 2]).
+  { intro l. cbn [app]. induction l as [|kd l IH]; [reflexivity|]. cbn [map flat_map clean_step_code app] in *.
+    destruct (flat_map clean_step_code (map (fun kd0 => LCleanDir (fst kd0)) l) ++ [2]) as [|x r] eqn:El; [destruct l; discriminate El|].
+    assert (Hx : x = 2). { destruct l as [|kd' l']; cbn in El; injection El as <- _; reflexivity. }
+    subst x. cbn [dedup_adjacent] in IH |- *. exact IH. }
+  cbn [flat_map clean_step_code app]. exact (E (s_dirs s)).
+Qed.
+Print Assumptions C06_clean_order_is_the_sources.
 
 (* non-vacuity: a history with a failed, a killed and a successful execution, cut by a crash
    between insert and commit, then completed by a second invocation *)
